@@ -457,7 +457,7 @@ where
                 deques.unlink_ao(&mut entry);
                 Deques::unlink_wo(&mut deques.write_order, &mut entry);
                 invalidated_count += 1;
-                invalidated = invalidated.saturating_sub(weight as u64);
+                invalidated = invalidated.saturating_add(weight as u64);
             }
         });
         self.entry_count -= invalidated_count;
@@ -932,7 +932,7 @@ where
                 self.deques.unlink_ao(&mut entry);
                 Deques::unlink_wo(&mut self.deques.write_order, &mut entry);
                 evicted_entry_count += 1;
-                evicted_policy_weight = evicted_policy_weight.saturating_sub(weight as u64);
+                evicted_policy_weight = evicted_policy_weight.saturating_add(weight as u64);
             } else {
                 self.deques.write_order.pop_front();
             }
